@@ -4,4 +4,15 @@ pub fn main() {
     println!("From Coq Require Import NArith List.\nImport ListNotations.\nOpen Scope N_scope.\n");
     println!("Definition G_FILLS_CAPACITY : N := {}.", mock_swap_sol_2z::state::FILLS_CAPACITY);
     println!("Definition G_FILLS_REGISTRY_SIZE : N := {}.", std::mem::size_of::<mock_swap_sol_2z::state::FillsRegistry>());
+    // pure shares family (Shares.v / Recipients.v)
+    println!("Definition G_UNIT_SHARE32_MAX : N := {}.", u32::from(doublezero_revenue_distribution::types::UnitShare32::MAX));
+    println!("Definition G_UNIT_SHARE16_MAX : N := {}.", u16::from(doublezero_revenue_distribution::types::UnitShare16::MAX));
+    println!("Definition G_MAX_RECIPIENTS : N := {}.", doublezero_revenue_distribution::state::MAX_RECIPIENTS);
+    println!("Definition G_RECIPIENT_SHARES_SIZE : N := {}.", std::mem::size_of::<doublezero_revenue_distribution::state::RecipientShares>());
+    println!("Definition G_REWARD_SHARE_FLAG_IS_BLOCKED_BIT : N := {}.", doublezero_revenue_distribution::types::RewardShare::FLAG_IS_BLOCKED_BIT);
+    println!("Definition G_REWARD_SHARE_FLAG_IS_BLOCKED_MASK : N := {}.", doublezero_revenue_distribution::types::RewardShare::FLAG_IS_BLOCKED_MASK);
+    println!("Definition G_REWARD_SHARE_ECONOMIC_BURN_RATE_MASK : N := {}.", doublezero_revenue_distribution::types::RewardShare::ECONOMIC_BURN_RATE_MASK);
+    println!("Definition G_REWARD_SHARE_SIZE : N := {}.", std::mem::size_of::<doublezero_revenue_distribution::types::RewardShare>());
+    println!("Definition G_CBR_PARAMS_SIZE : N := {}.", std::mem::size_of::<doublezero_revenue_distribution::state::CommunityBurnRateParameters>());   // C14 (BurnRate.v)
+    crate::direct_wire::dump_constants();   // C19 (Wire.v): selectors, program ids, derived-enum tags
 }
